@@ -35,6 +35,7 @@ package doltdb
 // SplitAncestorSpec: the base name ends before the first ancestor operator
 //@ func SplitAncestorSpec
 //@   property C44
+//@   ghost_set verif_ghost.specName = result0
 //@   ensures  result2 == nil ==> forall k in 0..len(result0): result0[k] != '^' && result0[k] != '~'
 
 // parseInstructions: never panics; each '~n' appends one instruction per step, starting with none
@@ -137,3 +138,14 @@ package doltdb
 // successive generated values are strictly increasing and never repeat (until the range is exhausted)
 //@ lemma verif_lemma_c28_generated_values_increase
 //@   property C28
+
+// NewCommitSpec: what is classified (HEAD / hash / branch name) and what is kept as the base of the spec is exactly
+// the name SplitAncestorSpec cut off — never a case-folded or otherwise rewritten copy (a branch may be named like
+// an upper-case hash); a hash or branch spec carries that very string
+//@ func NewCommitSpec
+//@   property C44
+//@   at call MatchString: assert arg1:string == name
+//@   at call IsValidBranchName: assert arg0:string == name
+//@   at call EqualFold: assert arg0:string == name || arg1:string == name
+//@   ensures  result1 == nil ==> result0 != nil && (result0.csType == headCommitSpec || result0.baseSpec == verif_ghost.specName)
+//@   also_modifies verif_ghost.specName
